@@ -25,6 +25,7 @@ require (
 	github.com/multiformats/go-multiaddr v0.3.3
 	github.com/multiformats/go-multihash v0.0.15
 	github.com/ugorji/go/codec v1.2.6
+	google.golang.org/protobuf v1.27.1
 	pgregory.net/rapid v1.3.0
 )
 
@@ -206,7 +207,6 @@ require (
 	google.golang.org/api v0.29.0 // indirect
 	google.golang.org/genproto v0.0.0-20200526211855-cb27e3aa2013 // indirect
 	google.golang.org/grpc v1.33.2 // indirect
-	google.golang.org/protobuf v1.27.1 // indirect
 	gopkg.in/alecthomas/kingpin.v2 v2.2.6 // indirect
 	gopkg.in/yaml.v2 v2.3.0 // indirect
 )
